@@ -447,7 +447,7 @@ func main() {
 		rep.NotExhaustive(fmt.Sprintf("soft time box reached after %d of %d programs (inner family is enumerated first and was %s)", n, len(jobs),
 			map[bool]string{true: "complete", false: "incomplete"}[n > int64(len(inner))]))
 	}
-	finish(len(inner), len(alpha), seqLen, *dump)
+	finish(len(inner), len(alpha), seqLen, *dump, expired.Load())
 }
 
 func heapBytes() uint64 {
@@ -525,7 +525,7 @@ var stopProfile = func() {}
 var dryRun bool
 var dryBytes int64
 
-func finish(nInner, nAlpha, seqLen int, dump bool) {
+func finish(nInner, nAlpha, seqLen int, dump, partial bool) {
 	stopProfile()
 	var fs []*finding
 	for _, f := range coll.m {
@@ -542,8 +542,12 @@ func finish(nInner, nAlpha, seqLen int, dump bool) {
 			fmt.Printf("RAW %6d size=%3d %s\n      src=%q\n      %s\n", f.count, f.size, f.key, f.rc.Src, f.rc.Detail)
 		}
 	}
-	for _, f := range orderUnknownFirst(classify(fs), cfg.Findings) {
-		rep.Violation(f.key, fmt.Sprintf("%s: %s | source %q", f.rc.Oracle, clip(f.rc.Detail, 300), f.rc.Src), f.rc)
+	for _, f := range orderUnknownFirst(classify(fs, partial, cfg.Findings), cfg.Findings) {
+		desc := fmt.Sprintf("%s: %s | source %q", f.rc.Oracle, clip(f.rc.Detail, 300), f.rc.Src)
+		if len(f.rc.Positions) > 0 {
+			desc += fmt.Sprintf(" | %d failing positions: %s", len(f.rc.Positions), strings.Join(f.rc.Positions, " "))
+		}
+		rep.Violation(f.key, desc, f.rc)
 		rep.Count("failing_cases:"+f.key, int(f.count))
 	}
 	rep.Count("programs", int(cnt.programs))
